@@ -1426,6 +1426,16 @@ pub fn handle_trailer(
             incr!(names::h2::TRAILER_SPOOF_VECTOR_ELIDED);
             return;
         }
+        if kawa.storage.available_space() < k.len() + v.len() {
+            // The stream buffer is still full of body bytes the other side has
+            // not drained yet: that does not make the field invalid. Keep it in
+            // owned stores instead of slices of the buffer.
+            kawa.push_block(Block::Header(Pair {
+                key: Store::from_slice(&k),
+                val: Store::from_slice(&v),
+            }));
+            return;
+        }
         let start = kawa.storage.end as u32;
         let end_before = kawa.storage.end;
         if kawa.storage.write_all(&k).is_err() || kawa.storage.write_all(&v).is_err() {
